@@ -99,6 +99,54 @@ CHECKS = {
     note='A counterexample is confirmed by running the compiled generator in 12 fresh processes (different hash seeds) on both insertion orders. '
          'Bounded to maps of up to 3 patterns with arbitrary iteration order.',
     technique='symbolic execution of MIR with nondeterministic container iteration + Z3, multi-process native confirmation', design='6/C13'),
+ 'C03': dict(
+    text='The three analyze_dir functions executed from MIR over a symbolic file system: directory trees (1..3 entries per directory: eligible file / other '
+         'file / sub-directory, depth <= 3), EVERY listing order of every directory (read_dir contract: each entry once, arbitrary order), 1..2 patterns, the '
+         'per-file analysis replaced by an uninterpreted result (empty or one symbolic line per file and pattern). Obligation on every path: the returned map, '
+         'as a multiset of (pattern, file, lines), equals the union of the per-file results of the eligible files. Exhaustive path enumeration of the bounded '
+         'family; there is no arithmetic in this property, so the solver only prunes.',
+    note='Counterexamples are rebuilt on disk with file names searched so that the real file system lists them in the counterexample\'s order, then the compiled '
+         'analyze_dir is compared with the compiled per-file analysis. HashMap::extend contract = insert each pair, replacing equal keys.',
+    technique='symbolic execution of MIR with a nondeterministic file-system model (exhaustive within bounds), native replay on real directories', design='6/C03'),
+ 'C14': dict(
+    text='str_to_optimization / str_to_vulnerability / str_to_qa executed from MIR on every name of the docs tables, README and Solstat.toml (parsed at run time) '
+         'with a SYMBOLIC casing mask (all 2^len casings at once), and on a symbolic unknown name (Z3 strings: every accepted string is a documented name); distinct '
+         'names -> distinct patterns; every default pattern has a documented name. Opts::new executed from the BINARY\'s MIR with clap / toml / fs / exit stubbed by '
+         'arbitrary values: patterns = the configured lists in order (all patterns without --toml), directory = --path ?: toml path ?: ./contracts, an unknown name or '
+         'a missing ./contracts fails the run; main() builds the options before anything is written.',
+    note='Native confirmation with the real opts.rs (opts_probe binary) and the real solstat binary. Outside: clap\'s and toml\'s own parsing.',
+    technique='symbolic execution of MIR (library + binary) + Z3 strings / casing masks, native replay', design='6/C14'),
+ 'C15': dict(category='model_checking',
+    text='REDUCED CLAIM (no threads). (1) Each analyze_for_* entry executed from MIR on a probe file with a symbolic file number and ARBITRARY iteration order of every '
+         'HashSet/HashMap: all paths must return the same lines (17 detectors). (2) In the analyze_dir model the findings of a file are the same with and without '
+         'siblings / sub-directories, for every listing order and pattern order. (3) A syntactic scan of the MIR for global or thread-local state. (4) The compiled '
+         'code in ONE process: the same file analysed alone vs. after / interleaved with an equal-length file of different line structure, repeated, with patterns '
+         'reversed, after another category; a directory with equal-length siblings.',
+    note='Concurrent calls from several threads and state inside the regex crate are outside the claim (neither engine models threads): stated in DESIGN.md section 7.',
+    technique='symbolic execution of MIR with nondeterministic container iteration + native call-sequence differential', design='6/C15, 7'),
+ 'C16': dict(
+    text='analyze_dir (3 categories) executed from MIR on a directory containing a file whose NAME is symbolic: 4..8 (thorough 1..10) characters, each a symbolic index '
+         'into an alphabet with upper/lower pairs, dots, a space and a non-ASCII letter; suffix / containment / case folding are bit-vector constraints, so Z3 decides '
+         'every name of that length. Obligations: a name not ending in .sol, or ending in .t.sol in any letter case, is never read (so its bytes — including non-UTF-8 '
+         'content — cannot matter or fail the run) and contributes nothing; a .sol name without .t.sol in its lower-case form is analysed; at depth 0..2.',
+    note='Names that contain .t.sol without ending in it are left unconstrained (the property can be read either way). Counterexample names are created on disk and '
+         'the compiled analyze_dir decides.',
+    technique='symbolic execution of MIR + Z3 bit-vectors over symbolic file names, native replay on real directories', design='6/C16'),
+ 'C17': dict(
+    text='REDUCED CLAIM (the parser is outside the solver\'s reach). Analyzer side, symbolic: all 30 detectors executed from MIR on family files with every byte '
+         'offset a free symbol and string-literal contents unobservable except their length: no branch may depend on an offset and every reported Loc must be a '
+         'node\'s own (position parametricity). End to end, differential on the compiled code: every family file is re-laid-out token-preservingly (random spaces, tabs, '
+         'LF / CRLF, blank lines, line / block / doc comments containing code-like and multi-byte text; same tree checked through the real parser) and the real '
+         'detectors must flag the same tokens, with lines that follow them.',
+    note='Together with C02 (lines = 1 + line feeds before the offset, decided for all texts up to the bound). Outside: the parser itself.',
+    technique='symbolic execution of MIR with free offsets (parametricity) + native re-layout differential', design='6/C17, 7'),
+ 'C19': dict(
+    text='Every detector except the two SafeMath ones executed from MIR three times on files built from the SAME node objects: pragmas + I1 + I2, pragmas + I1, '
+         'pragmas + I2 (10 kinds of top-level items: rich contract, constructor after / before functions, packable, constants, library, interface, free function, '
+         'struct, empty contract; pragma before / between / after the items, versions on both sides of 0.8.4): the Loc sets must satisfy R(I1 I2) = R(I1) ∪ R(I2), and '
+         'the whole file may only panic if an item alone does.',
+    note='Natively the single-item files are the two-item file with the other item blanked by spaces (line feeds kept), so offsets stay comparable.',
+    technique='symbolic execution of MIR on shared-node compositions, native replay', design='6/C19'),
 }
 NOT_YET = "check not built yet (framework under construction); see DESIGN.md section 6"
 NA = {
